@@ -415,7 +415,7 @@ def composed_constructions(pool, rng, thorough):
     out = []
     small = [p for p in pool if int(np.prod(p[2])) <= 9]
     par = [p for p in small if p[1] > 0]
-    n_each = 70 if thorough else 40
+    n_each = 70 if thorough else 32
 
     def pick(l):
         return l[rng.randrange(len(l))]
@@ -725,9 +725,18 @@ def run_task(task):
     """One construction, all its points.  Runs in a worker process."""
     try:
         return _run_task(task)
-    except Exception:
+    except Exception as e:
         import traceback
-        return {'idx': task[0], 'error': traceback.format_exc(), 'spec': repr(task[1])}
+        tb = traceback.format_exc()
+        if '/bqskit/' in tb.split('harness/c18.py')[-1]:
+            # the library raised inside an oracle on an admissible input
+            name = spec_name(task[1])
+            return {'idx': task[0], 'viol': [(
+                f'raises-{type(e).__name__}:{outer_class(task[1])}',
+                f'{name}: the library raised {type(e).__name__}: {e} while an oracle '
+                'evaluated an admissible input', {'spec': repr(task[1]), 'traceback': tb[-1500:]},
+                True)], 'exact': [], 'counts': {}, 'meta': None, 'bad': {'unitary'}}
+        return {'idx': task[0], 'error': tb, 'spec': repr(task[1])}
 
 
 def _run_task(task):
@@ -791,6 +800,11 @@ def _run_task(task):
                  'documented)', {})
         return res
     composed_ref = spec[0] in ('dag', 'tag', 'pow', 'frz', 'ctrl', 'emb')
+    from bqskit.ir.gate import Gate as _Gate
+    has_override = hasattr(g, '_expr') and type(g).get_unitary is not _Gate.get_unitary \
+        and spec[0] in ('cls', 'obj')
+    has_grad_override = hasattr(g, '_expr') and type(g).get_grad is not _Gate.get_grad \
+        and spec[0] in ('cls', 'obj') and g.num_params > 0
     gi = None
     try:
         gi = g.get_inverse()
@@ -828,6 +842,18 @@ def _run_task(task):
         if not (err < UNIT_TOL):
             viol('unitarity', f'|U U^dag - 1| = {err:.3g}', rep)
         cnt('unitarity')
+        # ---- hand-written override vs the expression backend (both present)
+        if has_override:
+            try:
+                E = np.asarray(g._expr(*vals))
+                cnt('override_vs_expr')
+                e5 = float(np.abs(E - U).max()) if E.shape == U.shape else float('inf')
+                if not (e5 < 1e-9):
+                    viol('override-vs-expr', 'hand-written get_unitary differs from the '
+                         f'gate\'s own expression by {e5:.3g}', rep)
+            except Exception as e:
+                viol('override-vs-expr', f'expression evaluation raised '
+                     f'{type(e).__name__}: {e}', rep, False)
         # ---- composed = algebraic composition of the parts
         if composed_ref:
             def inner_u(s, p):
@@ -908,10 +934,27 @@ def _run_task(task):
             elif G.shape != (np_, dim, dim):
                 viol('grad-shape', f'gradient shape {G.shape} != ({np_},{dim},{dim})', rep)
                 G = None
+        if G is not None and has_grad_override:
+            try:
+                EG = np.asarray(g._expr.gradient(*vals))
+                cnt('override_vs_expr')
+                e6 = float(np.abs(EG - G).max()) if EG.shape == G.shape else float('inf')
+                if not (e6 < 1e-9):
+                    viol('override-vs-expr-grad', 'hand-written get_grad differs from the '
+                         f'gradient of the gate\'s own expression by {e6:.3g}', rep)
+            except Exception as e:
+                viol('override-vs-expr-grad', f'expression gradient raised '
+                     f'{type(e).__name__}: {e}', rep, False)
         if G is not None and np_ > 0:
             cnt('grad_fd')
             for i in range(np_):
-                F = fd_grad(g, vals, i)
+                try:
+                    F = fd_grad(g, vals, i)
+                except Exception as e:
+                    viol('unitary-raises-' + type(e).__name__,
+                         f'get_unitary raised {type(e).__name__} next to an admissible '
+                         f'parameter vector: {e}', dict(rep, index=i))
+                    break
                 sc = max(1.0, float(np.abs(G[i]).max()), float(np.abs(F).max()))
                 e3 = float(np.abs(F - G[i]).max())
                 if not (e3 < FD_TOL * sc * max(1.0, abs(vals[i]) * 1e-3)):
@@ -1351,7 +1394,7 @@ def run(ck: Check):
             if G is not None:
                 lines.append(f'g | {e}{tail}')
                 back.append(('g', s, vals, G, rates))
-            if Ui is not None:
+            if Ui is not None and (thorough or len(lines) % 3 == 0):
                 lines.append(f'inv | {e}{tail}')
                 back.append(('inv', s, vals, Ui, rates))
     outs = []
